@@ -71,8 +71,15 @@ void SelectLoop::runLoop(Mode mode)
                 bool is_except   = FD_ISSET(fd, &except_set);
 
                 if (is_readable || is_writable || is_except) {
-                    auto *data = fd_data_map_.at(fd);
+                    //! 前面的回调中可能已将该fd的所有FdEvent都销毁了，所以这里不能用at()
+                    auto iter = fd_data_map_.find(fd);
+                    if (iter == fd_data_map_.end())
+                        continue;
+
+                    auto *data = iter->second;
+                    ++data->ref;    //! 防止在回调过程中被回收
                     SelectFdEvent::OnEventCallback(is_readable, is_writable, is_except, data);
+                    unrefFdSharedData(fd);
                 }
             }
         } else if (select_ret == -1) {
